@@ -329,6 +329,33 @@ func checkCtorSkeleton(c *Ctx, r *Rec, info *types.Info, fd *ast.FuncDecl, kind 
 		return
 	}
 	bad := ""
+	// an ordered kind must not be rebuilt from a Go map: the order of the source is lost
+	if kind != "Map" && kind != "Set" {
+		viaMap := ""
+		for _, st := range sourceArm.Body {
+			ast.Inspect(st, func(y ast.Node) bool {
+				call, ok := y.(*ast.CallExpr)
+				if !ok {
+					return true
+				}
+				if _, mname, _, ok := methodCall(call); ok && mname == "MakeFromMap" {
+					viaMap = "the parsed associations are handed to MakeFromMap"
+				}
+				if t := info.TypeOf(call); t != nil {
+					if _, isMap := t.Underlying().(*types.Map); isMap {
+						if cf := calleeOf(info, call); cf != nil && c.declOf(cf) != nil {
+							viaMap = "the parsed items are converted into a Go map by " + cf.Name()
+						}
+					}
+				}
+				return true
+			})
+		}
+		if viaMap != "" {
+			r.fail("D3-source-branch", construct, c.pos(sourceArm.Pos()), viaMap+": a Go map has no order, so "+kind+"(\"...source...\") lists its items in a random order instead of the order of the source (the parser keeps that order)")
+			return
+		}
+	}
 	var loop *ast.ForStmt
 	for _, s := range sourceArm.Body {
 		inspectNoLit(s, func(y ast.Node) bool {
